@@ -693,12 +693,19 @@ func (peer *peer) handleUpdate(e *fsmMsg, clusterIDs []netip.Addr) ([]*table.Pat
 		paths := make([]*table.Path, 0, len(pathList))
 		eor := []bgp.Family{}
 		conf := peer.fsm.pConf.ReadOnly()
+		stripLocalPref := !peer.isIBGPPeer() && !peer.isRouteServerClient()
 		for _, path := range pathList {
 			if path.IsEOR() {
 				family := path.GetFamily()
 				peer.fsm.logger.Debug("EOR received", slog.String("AddressFamily", family.String()))
 				eor = append(eor, family)
 				continue
+			}
+			// RFC 4271 5.1.5: LOCAL_PREF received from an external peer is ignored.
+			// Strip it here, before the path is stored in the Adj-RIB-In and handed
+			// to watchers: the path must not be modified once others can read it.
+			if stripLocalPref {
+				path.RemoveLocalPref()
 			}
 			// RFC4271 9.1.2 Phase 2: Route Selection
 			//
